@@ -29,8 +29,6 @@ func validateObserverReadingEligibility(
 	supportedChains mapset.Set[cciptypes.ChainSelector],
 	observedMsgs exectypes.MessageObservations,
 ) error {
-	// TODO: validate that CommitReports and Nonces are only observed if the destChain is supported.
-
 	for chainSel, msgs := range observedMsgs {
 		if len(msgs) == 0 {
 			continue
@@ -39,6 +37,40 @@ func validateObserverReadingEligibility(
 		if !supportedChains.Contains(chainSel) {
 			return fmt.Errorf("observer not allowed to read from chain %d", chainSel)
 		}
+	}
+
+	return nil
+}
+
+// validateObserverDataEligibility checks the remaining chain data of an observation against the observer's role:
+// token data is derived from the messages of its source chain, nonces and costly message flags are computed from
+// destination chain reads. Commit reports are not checked here: the GetMessages observation repeats the pending
+// reports of the previous outcome whatever the observer's role is.
+func validateObserverDataEligibility(
+	supportedChains mapset.Set[cciptypes.ChainSelector],
+	destChain cciptypes.ChainSelector,
+	obs exectypes.Observation,
+) error {
+	for chainSel, tokenData := range obs.TokenData {
+		if len(tokenData) > 0 && !supportedChains.Contains(chainSel) {
+			return fmt.Errorf("observer not allowed to observe token data of chain %d", chainSel)
+		}
+	}
+
+	if supportedChains.Contains(destChain) {
+		return nil
+	}
+
+	for chainSel, nonces := range obs.Nonces {
+		if len(nonces) > 0 {
+			return fmt.Errorf("observer does not support dest chain %d, but has observed nonces for chain %d",
+				destChain, chainSel)
+		}
+	}
+
+	if len(obs.CostlyMessages) > 0 {
+		return fmt.Errorf("observer does not support dest chain %d, but has observed %d costly messages",
+			destChain, len(obs.CostlyMessages))
 	}
 
 	return nil
